@@ -168,7 +168,7 @@ impl Property for C45w {
         case_strategy(tier)
     }
     fn budget(&self, tier: Tier) -> Budget {
-        Budget::new(tier.pick(800, 80_000), tier.pick(8, 16)).min_nontrivial(tier.pick(200, 20_000)).discard_cap(0.5)
+        Budget::new(tier.pick(800, 400_000), tier.pick(8, 16)).min_nontrivial(tier.pick(200, 100_000)).discard_cap(0.5)
     }
     fn rule(&self) -> String {
         "window function drawn uniformly from the 11 default window UDFs, value type from a pool of 17 types, literal offsets/defaults, IGNORE NULLS / reversed, 0-16 rows (thorough 0-40) with NULLs, order-key runs, arbitrary frames; \
@@ -222,6 +222,19 @@ fn run_case(case: &Case) -> CaseResult {
         Ok(x) => x,
         Err(e) => violation!("{e}"),
     };
+    // a NATIVE call with panic capture (a native panic is not an FFI matter and would abort the process inside an
+    // extern "C" entry point): the case ends before the foreign side is called
+    macro_rules! nat {
+        ($e:expr) => {
+            match crate::guard(|| $e) {
+                Ok(r) => r,
+                Err(p) => {
+                    labels.push(format!("native-panic:fn={name}:{}", truncate(&p, 40)));
+                    return CaseResult::pass().labels(labels);
+                }
+            }
+        };
+    }
     if foreign.name() != native.name() || foreign.aliases() != native.aliases() {
         violation!("name/aliases differ: {:?} {:?} vs {:?} {:?}", native.name(), native.aliases(), foreign.name(), foreign.aliases());
     }
@@ -270,13 +283,13 @@ fn run_case(case: &Case) -> CaseResult {
     if !fields.is_empty() {
         let a = fields_with_udf(&fields, native.as_ref()).map(|f| f.iter().map(|x| x.data_type().clone()).collect::<Vec<_>>()).map_err(|e| truncate(&e.to_string(), 200));
         let b = fields_with_udf(&fields, &foreign).map(|f| f.iter().map(|x| x.data_type().clone()).collect::<Vec<_>>()).map_err(|e| truncate(&e.to_string(), 200));
-        match (&a, &b) {
-            (Ok(x), Ok(y)) if x == y => {}
-            (Err(_), Err(_)) => labels.push("coerce:both-reject".into()),
-            _ => violation!("coercion: native {a:?} foreign {b:?}"),
+        let raw_dts: Vec<DataType> = fields.iter().map(|f| f.data_type().clone()).collect();
+        match crate::coercion_agree(&a, &b, &raw_dts) {
+            Ok(l) => labels.push(format!("coerce:{l}")),
+            Err(e) => violation!("coercion: {e}"),
         }
     }
-    match (native.field(WindowUDFFieldArgs::new(&fields, "w")), foreign.field(WindowUDFFieldArgs::new(&fields, "w"))) {
+    match (nat!(native.field(WindowUDFFieldArgs::new(&fields, "w"))), foreign.field(WindowUDFFieldArgs::new(&fields, "w"))) {
         (Ok(a), Ok(b)) => {
             if a != b {
                 violation!("field(): native {a:?} foreign {b:?}");
@@ -287,7 +300,7 @@ fn run_case(case: &Case) -> CaseResult {
     }
 
     let mk = || PartitionEvaluatorArgs::new(&exprs, &fields, case.is_reversed, case.ignore_nulls);
-    let ev_n = native.partition_evaluator_factory(mk());
+    let ev_n = nat!(native.partition_evaluator_factory(mk()));
     let ev_u = foreign.partition_evaluator_factory(mk());
     let ev_f = forced_evaluator(&ffi, mk());
     let (mut e_n, mut e_u, mut e_f) = match (ev_n, ev_u, ev_f) {
@@ -329,7 +342,7 @@ fn run_case(case: &Case) -> CaseResult {
             let a = pick_index(case.frames[i].0, n + 1);
             let b = pick_index(case.frames[i].1, n + 1);
             let range = a.min(b)..a.max(b);
-            match (e_n.evaluate(&values, &range), e_u.evaluate(&values, &range), e_f.evaluate(&values, &range)) {
+            match (nat!(e_n.evaluate(&values, &range)), e_u.evaluate(&values, &range), e_f.evaluate(&values, &range)) {
                 (Ok(x), Ok(y), Ok(z)) => {
                     if render_scalar(&x) != render_scalar(&y) || render_scalar(&x) != render_scalar(&z) {
                         violation!("evaluate(row {i}, range {range:?}): native {} via-foreign-udwf {} forced-foreign {}", render_scalar(&x), render_scalar(&y), render_scalar(&z));
@@ -349,10 +362,10 @@ fn run_case(case: &Case) -> CaseResult {
     } else {
         let (rn, ru, rf) = if include_rank {
             labels.push("mode:rank".into());
-            (e_n.evaluate_all_with_rank(n, &ranks), e_u.evaluate_all_with_rank(n, &ranks), e_f.evaluate_all_with_rank(n, &ranks))
+            (nat!(e_n.evaluate_all_with_rank(n, &ranks)), e_u.evaluate_all_with_rank(n, &ranks), e_f.evaluate_all_with_rank(n, &ranks))
         } else {
             labels.push("mode:all".into());
-            (e_n.evaluate_all(&arrays, n), e_u.evaluate_all(&arrays, n), e_f.evaluate_all(&arrays, n))
+            (nat!(e_n.evaluate_all(&arrays, n)), e_u.evaluate_all(&arrays, n), e_f.evaluate_all(&arrays, n))
         };
         match (rn, ru, rf) {
             (Ok(x), Ok(y), Ok(z)) => {
@@ -371,14 +384,14 @@ fn run_case(case: &Case) -> CaseResult {
 
     // ---- stateful (bounded) mode with fresh evaluators
     if bounded && !uses_frame && n > 0 {
-        if let (Ok(mut s_n), Ok(mut s_f)) = (native.partition_evaluator_factory(mk()), forced_evaluator(&ffi, mk())) {
+        if let (Ok(mut s_n), Ok(mut s_f)) = (nat!(native.partition_evaluator_factory(mk())), forced_evaluator(&ffi, mk())) {
             labels.push("mode:stateful".into());
             let mut values = arrays.clone();
             if include_rank {
                 values.push(Arc::clone(&ord));
             }
             for idx in 0..n {
-                let range = match (s_n.get_range(idx, n), s_f.get_range(idx, n)) {
+                let range = match (nat!(s_n.get_range(idx, n)), s_f.get_range(idx, n)) {
                     (Ok(a), Ok(b)) => {
                         if a != b {
                             violation!("get_range({idx}, {n}): native {a:?} forced-foreign {b:?}");
@@ -388,7 +401,7 @@ fn run_case(case: &Case) -> CaseResult {
                     (Err(_), Err(_)) => break,
                     (a, b) => violation!("get_range({idx}, {n}): native {:?} forced-foreign {:?}", a.map_err(|e| truncate(&e.to_string(), 200)), b.map_err(|e| truncate(&e.to_string(), 200))),
                 };
-                match (s_n.evaluate(&values, &range), s_f.evaluate(&values, &range)) {
+                match (nat!(s_n.evaluate(&values, &range)), s_f.evaluate(&values, &range)) {
                     (Ok(x), Ok(y)) => {
                         if render_scalar(&x) != render_scalar(&y) {
                             violation!("stateful evaluate(row {idx}, range {range:?}): native {} forced-foreign {}", render_scalar(&x), render_scalar(&y));
